@@ -165,4 +165,4 @@ def _round7(ctx):
     from rules import arms as A
     with ctx.rule('R02.9', "the message a caller builds is the message published: Publish's constructor helpers put each argument into the field of its name", floor=9) as r:
         A.setters_and_ctors(ctx, r, 'exchange::Publish', consts={'new': {'mandatory': 'false', 'immediate': 'false', 'properties': '<amq_protocol::protocol::basic::AMQPProperties as std::default::Default>::default()'},
-                                                                 'with_properties': {'mandatory': 'false', 'immediate': 'false'}})
+                                                                 'with_properties': {'mandatory': 'false', 'immediate': 'false'}}, names=('new', 'with_properties'))
